@@ -26,6 +26,9 @@ package binutils
 //@ func elfMapping.findProgramHeader nosafety
 //@   callsite ProgramHeadersForMapping mapping: $arg1 == m.offset && $arg2 == m.limit - m.start
 //@   callsite HeaderForFileOffset fileoffset: $arg1 == addr - m.start + m.offset
+// (after seeded change user-space-cutoff-lowered-to-47-bits) the text-segment fallback is for kernel mappings only: an explicit
+// kernel offset, an empty range, or a limit in the upper half of the address space
+//@   callsite FindTextProgHeader kernel_only: m.kernelOffset != nil || m.start >= m.limit || m.limit >= 9223372036854775808
 //@ func file.computeBase nosafety
 //@   callsite elfMapping.findProgramHeader sample: $arg0 == f.m && $arg2 == addr
 //@   callsite GetBase mapping: $arg2 == f.m.kernelOffset && $arg3 == f.m.start && $arg4 == f.m.limit && $arg5 == f.m.offset
